@@ -13,12 +13,15 @@ let op_of_json j =
   | JStr "tick" :: _ -> Tick
   | JStr "drain" :: _ -> Drain
   | JStr "io" :: _ -> IoDone
+  | JStr "read" :: _ -> Read
+  | JStr "delete" :: _ -> Delete
   | _ -> raise (Model_error "bad op")
 
 let json_of_res r =
   match r with
   | ROk -> JStr "ok" | ROSError -> JStr "OSError" | RInvalid -> JStr "InvalidStateError"
   | RNew i -> JArr [JStr "new"; of_nat i] | RBadId -> JStr "badid"
+  | RRead b -> JArr [JStr "read"; of_bytes b] | RSkipped -> JStr "skipped"
 
 let json_of_fut f =
   match f with
